@@ -11,9 +11,21 @@ CLAIMED = {
         note="Trusted: msgpack and zlib as used by the independent frame walker / decompressor; SimFS fidelity (self-tested against the real file system); process-crash model (no power-loss reordering); value domain limited to types that round-trip on the pinned tree.",
         technique="deterministic simulation + fault enumeration (crash at every byte, failing/torn/short writes, crash after every call) against an acknowledged-frame reference model",
     ),
+    "C03": dict(
+        category="exploration", design_ref="DESIGN.md 5.1",
+        text="Deterministic simulation: up to four writers of mixed kinds (binary on a raw device, path based, gzip, JSON lines) are open at the same time in one process and stepped in a seeded interleaving, with readers reading the simulated disk between their steps, over a descriptor pool built to collide (same name / other fields, coinciding identifiers incl. a genuine 32-bit hash collision, nested-only and grouped-only types, equal descriptors created twice). Every stream is checked with an independent frame walker against a per-stream registry model and read back with the library's reader. All histories of <= 3 writes over 2 writers over the core pool are enumerated, longer ones are sampled.",
+        note="Trusted: msgpack/json as used by the independent walker; the interleaving granularity is one API call (the library is synchronous); identifier coincidences inside one record tree are outside the domain (the wire format cannot represent them).",
+        technique="deterministic simulation: seeded interleaving of concurrently open writers/readers, bounded-exhaustive short histories + random long ones, per-stream reference registry model",
+    ),
+    "C17": dict(
+        category="exploration", design_ref="DESIGN.md 5.5",
+        text="Deterministic simulation of writer life cycles: every body of <= 5 write/flush calls x 6 ways of ending (close, double close, flush+close, with-exit, with-body-raises, exit+close) for 15 writer targets is enumerated, longer histories and split arithmetic (limits 1..7, all residues, suffix lengths) are sampled, and time-templated archiving runs under a simulated clock (same-second bursts, hour/day steps, backward jumps, skewed record stamps, restarts, pre-existing files). Oracle: conservation against the list of acknowledged writes through the library reader and independent decoders, double-close idempotence, split limits / per-part readability / byte concatenation, and 'no rename or open ever replaced an existing file' read off the simulated file system's event log.",
+        note="Trusted: SimFS fidelity (self-tested against the real file system), the independent decoders (gzip/bz2/lz4/zstandard/json/csv/fastavro/sqlite3). Finaliser timing is outside the histories. One known finding (stream writer closed with no records and no flush leaves no header; pinned by an existing test) is listed in KNOWN_FINDINGS.txt.",
+        technique="deterministic simulation: bounded-exhaustive call histories per adapter + seeded histories, simulated clock and file system (rename/truncate event log), conservation oracle",
+    ),
 }
 
-BUILDING = {k: "simulation target per DESIGN.md; its check is still under construction and is therefore not claimed yet" for k in ("C03", "C11", "C16", "C17", "C18")}
+BUILDING = {k: "simulation target per DESIGN.md; its check is still under construction and is therefore not claimed yet" for k in ("C11", "C16", "C18")}
 
 NOT_APPLICABLE = {
     "C01": "pure encode/decode function of its input (value identity of the codec): no schedule, clock, fault or crash point for a simulator to own; its I/O side is simulated under C04/C11/C03",
